@@ -21,7 +21,7 @@ static void bind(Ctx &C) { ExtState &e = E(C); if (!e.bound) { e.cs.Bind(*C.mode
 static VectorNd solve_consistent(MatrixNd A, VectorNd b) {
   int n = A.rows(); std::vector<int> colp(n); for (int i = 0; i < n; i++) colp[i] = i;
   double amax = 0.; for (int i = 0; i < n; i++) for (int j = 0; j < n; j++) amax = std::max(amax, fabs(A(i, j)));
-  double thr = 1e-9 * amax; int rank = 0;
+  double thr = std::max(1e-9 * amax, 1e-14); int rank = 0;   // absolute floor: a Jacobian that is numerically zero has no pivot
   for (int k = 0; k < n; k++) {
     int pi = k, pj = k; double best = -1.;
     for (int i = k; i < n; i++) for (int j = k; j < n; j++) if (fabs(A(i, j)) > best) { best = fabs(A(i, j)); pi = i; pj = j; }
